@@ -338,6 +338,14 @@ fn prop_rt_inner(bytes: &[u8], explain: bool) -> String {
             if m1.hit_objects.iter().any(typed_point_repeats_predecessor) {
                 tags.push("repeated-point-at-segment-start");
             }
+            if m1.hit_objects.iter().any(|h| {
+                h.samples.iter().any(|x| match &x.name {
+                    rosu_map::section::hit_objects::hit_samples::HitSampleInfoName::File(f) => f.trim_end() != f.as_str(),
+                    _ => false,
+                })
+            }) {
+                tags.push("sample-file-name-ends-with-white-space");
+            }
             if m1.hit_objects.iter_mut().any(computed_length_above_limit) {
                 tags.push("computed-length-above-parse-limit");
             }
